@@ -45,6 +45,8 @@ class State:
         self.spec = False
         self.ctx: List[Any] = []  # temporary hypotheses while evaluating a guarded sub-expression
         self.ghostvals: Dict[str, Any] = {}
+        self.calllog: List[Any] = []  # (callable contract name, [argument SVs]) in call order
+        self.callbase: Dict[str, Any] = {}  # symbolic number of calls made before the current log segment (loops)
         self.events: List[Any] = []  # heap snapshots (L, fields, A): everything stored then is allocated then
         self.loads: Dict[Any, Any] = {}  # heap cells read on this path
 
@@ -63,6 +65,11 @@ class State:
         s.ghostvals = dict(self.ghostvals)
         s.events = list(self.events)
         s.loads = dict(self.loads)
+        s.calllog = list(self.calllog)
+        s.callbase = dict(self.callbase)
+        c = getattr(self, "_wf", None)
+        if c is not None and c[0] is self.events and c[1] is self.loads:
+            s._wf = [s.events, s.loads, c[2], c[3], list(c[4])]
         return s
 
     def snap(self):
@@ -103,20 +110,34 @@ def has_effect_call(node: ast.AST) -> bool:
 
 
 def wf_instances(st) -> List[Any]:
-    """Instances of heap well-formedness: whatever reference is stored in heap snapshot e is allocated in e."""
-    out = []
-    for (L, fields, A) in st.events:
-        for (kind, f, o, k) in st.loads.values():
-            if kind == "L":
-                t = L[o][k]
-            else:
-                arr = fields.get(f)
-                if arr is None:
-                    # untouched at that time: still the initial array of this field
-                    arr = z3.Const(f"H!{f}!0", z3.ArraySort(I, Val))
-                t = arr[o]
-            out.append(z3.Implies(is_ref(t), rval(t) < A))
-    return out
+    """Instances of heap well-formedness: whatever reference is stored in heap snapshot e is allocated in e.
+    Computed incrementally (events x loads) and cached on the state."""
+    cache = getattr(st, "_wf", None)
+    if cache is None or cache[0] is not st.events or cache[1] is not st.loads:
+        cache = [st.events, st.loads, 0, 0, []]
+        st._wf = cache
+    ne0, nl0, out = cache[2], cache[3], cache[4]
+    loads = list(st.loads.values())
+    ne, nl = len(st.events), len(loads)
+
+    def inst(ev, ld):
+        (L, fields, A) = ev
+        (kind, f, o, k) = ld
+        if kind == "L":
+            t = L[o][k]
+        else:
+            arr = fields.get(f)
+            if arr is None:
+                # untouched at that time: still the initial array of this field
+                arr = z3.Const(f"H!{f}!0", z3.ArraySort(I, Val))
+            t = arr[o]
+        return z3.Implies(is_ref(t), rval(t) < A)
+    for i in range(ne):
+        lo = nl0 if i < ne0 else 0
+        for j in range(lo, nl):
+            out.append(inst(st.events[i], loads[j]))
+    cache[2], cache[3] = ne, nl
+    return list(out)
 
 
 def smt_ArrV():
@@ -335,6 +356,14 @@ class Verifier:
             Verifier._py_objs[k] = obj
         return VRef(z3.IntVal(Verifier._py_ids[k]))
 
+    @staticmethod
+    def _simple_py(v) -> bool:
+        if isinstance(v, (str, int, bool, type(None))):
+            return True
+        if isinstance(v, tuple):
+            return all(isinstance(x, (str, int, bool, type(None))) or (hasattr(x, "name") and hasattr(x, "value")) for x in v)
+        return False
+
     def from_py(self, obj) -> SV:
         if obj is None:
             return mk_none()
@@ -406,6 +435,9 @@ class Verifier:
             return v
         if st.spec and node.id in st.ghostvals:
             return st.ghostvals[node.id]
+        from .smt import SPEC_CONSTS
+        if st.spec and node.id in SPEC_CONSTS:
+            return self.from_py(SPEC_CONSTS[node.id]) if not isinstance(SPEC_CONSTS[node.id], (tuple, list, frozenset, set)) else mk_py(SPEC_CONSTS[node.id])
         if node.id in ("True", "False", "None"):
             return self.from_py({"True": True, "False": False, "None": None}[node.id])
         if node.id in self.env:
@@ -509,6 +541,12 @@ class Verifier:
         for i, nxt in enumerate(node.values[1:]):
             c = self.truthy(st, cur, node)
             go_on = c if is_and else z3.Not(c)  # condition under which the next operand is evaluated
+            sg = z3.simplify(go_on)
+            if z3.is_false(sg):
+                return cur
+            if z3.is_true(sg):
+                cur = self.ev(nxt, st)
+                continue
             if has_effect_call(nxt):
                 d = self.decide(st, (node, i), go_on) if False else self._decide_key(st, ("bo", id(node), i), go_on)
                 if not d:
@@ -662,6 +700,8 @@ class Verifier:
         if a.kind == "seq" or b.kind == "seq":
             raise EngineError("equality of spec sequences: state it with forall")
         if a.kind == "tuple" or b.kind == "tuple":
+            if "none" in (a.kind, b.kind):
+                return z3.BoolVal(False)
             if a.kind == b.kind and len(a.items) == len(b.items):
                 return z3.And([self.equal(st, x, y, identity) for x, y in zip(a.items, b.items)] or [z3.BoolVal(True)])
             raise EngineError("tuple comparison")
@@ -752,6 +792,9 @@ class Verifier:
             obj = SV(obj.v, "ref", obj.ty[1])
         cname = self.static_class(obj)
         r = rval(obj.v)
+        from .smt import CLASS_METHODS
+        if cname is not None and attr in CLASS_METHODS.get(cname, {}):
+            return SV(None, "py", None, py=("boundmethod", CLASS_METHODS[cname][attr], obj))
         if cname is not None:
             pc = CLASSES.pyclass.get(cname)
             # methods / properties
@@ -830,12 +873,19 @@ class Verifier:
                 hit = z3.Or([self.equal(st, idx, self.from_py(k), False) for k in keys] or [z3.BoolVal(False)])
                 self.oblige(st, hit, "rte-KeyError", node)
                 st.assume(hit)
+                if not all(self._simple_py(v) for v in obj.values()):
+                    for k in keys:
+                        if self._decide_key(st, ("pyidx", id(node), k), self.equal(st, idx, self.from_py(k), False)):
+                            return self.from_py(obj[k])
+                    raise EngineError("unreachable dict index")
                 res = None
                 for k in reversed(keys):
                     v = self.from_py(obj[k])
                     res = v if res is None else self.merge(st, self.equal(st, idx, self.from_py(k), False), v, res)
                 return res
             raise EngineError("subscript of python object")
+        if False:
+            pass
         if base.kind == "tuple":
             if idx.kind == "int" and z3.is_int_value(z3.simplify(ival(idx.v))):
                 k = z3.simplify(ival(idx.v)).as_long()
